@@ -48,7 +48,9 @@ def make_message(rng, k, hostile=0.0, inner=None, nsub_choices=(1, 1, 2, 3), uni
             ids = g.template(max_items=5, ptail=0.3)
         meta = dict(master_table_version=mtv, data_category=rng.choice([0, 1, 2, 3, 7, 12, 21, 255]),
                     update_sequence_number=k % 256, second=(k // 256) % 60, minute=rng.randrange(60),
-                    originating_centre=rng.randrange(200))
+                    originating_centre=rng.randrange(200),
+                    reserved3=rng.choice(['00000000', '00000000', '00000001']),
+                    flag_bits1=rng.choice(['0000000', '0000000', '0000001']))
         if inner is not None:
             pol = PayloadPolicy(rng, [inner])
         elif r < hostile:
